@@ -177,8 +177,8 @@ var (
 	vEdgeCJK     = []rune("米飯麺茶水魚肉卵豆腐한글かな")
 	vEdgeLatin   = []rune("éèêëàâäôöùûüçñßøåÉÖÀÐÿµªºþ")
 	vEdgeOther   = []rune("אבגשעبتثकखगกขด")
-	vInnerWild   = []string{" ", "  ", "/", ".", "_", "'", "(", ")", "%", "+", "&", ",", "\"", ":", "-", "#", "=", ", ", ": ", " - ", " #", "\\", "\": ", "\\ "}
-	vInnerTame   = []string{" ", "/", ".", "_", "-", "'", "&", "+", "%", "(", ")", ",", "<", ">", ";"}
+	vInnerWild   = []string{" ", "  ", "/", ".", "_", "'", "(", ")", "%", "+", "&", ",", "\"", ":", "-", "#", "=", ", ", ": ", " - ", " #", "\\", "\": ", "\\ ", "…"}
+	vInnerTame   = []string{" ", "/", ".", "_", "-", "'", "&", "+", "%", "(", ")", ",", "<", ">", ";", "…", "  "}
 	vEdgeClasses = [][]rune{vEdgeASCII, vEdgeASCII, vEdgeASCII, vEdgeDigits, vEdgeCyr, vEdgeGreek, vEdgeCJK, vEdgeLatin, vEdgeOther, vEdgeLowByte()}
 )
 
@@ -504,6 +504,10 @@ func vGenNoteLine(t *rapid.T, o vLayoutOpts, label string) vLine {
 		// a note longer than a 4096-byte read buffer
 		return vLine{Kind: vkTNote, Text: "long " + strings.Repeat("n", []int{4090, 4100, 8200}[rapid.IntRange(0, 2).Draw(t, label+".longn")]), L: vGenNoteLayout(t, o, label)}
 	}
+	if rapid.IntRange(0, 11).Draw(t, label+".empty") == 0 {
+		// a note that is nothing but the marker ("  #"): still a note, never an entry
+		return vLine{Kind: vkTNote, Text: "", L: vGenNoteLayout(t, o, label)}
+	}
 	if rapid.Bool().Draw(t, label+".kv") {
 		return vLine{Kind: vkNote, Name: w(label + ".k"), Text: w(label + ".v"), L: vGenNoteLayout(t, o, label)}
 	}
@@ -651,11 +655,20 @@ func vGenBook(t *rapid.T, o vBookOpts, label string) (vDoc, vBookInfo) {
 		if len(lines) > 0 && rapid.IntRange(0, 4).Draw(t, label+".rep") == 0 {
 			src := lines[rapid.IntRange(0, len(lines)-1).Draw(t, label+".repi")]
 			num := src.Num
-			if rapid.Bool().Draw(t, label+".repn") {
+			switch rapid.IntRange(0, 3).Draw(t, label+".repn") {
+			case 0, 1:
 				if o.Exact {
 					num = "2"
 				} else {
 					num = vGenNumDecimal(t, label+".repv")
+				}
+			case 2: // the repetition cancels the first mention exactly
+				if strings.HasPrefix(num, "-") {
+					num = num[1:]
+				} else if strings.HasPrefix(num, "+") {
+					num = "-" + num[1:]
+				} else {
+					num = "-" + num
 				}
 			}
 			lines = append(lines, vLine{Kind: vkEntry, Name: src.Name, Num: num, L: vGenEntryLayout(t, o.Layout, label+".el")})
@@ -769,6 +782,9 @@ func vIota(n int) []int {
 // dates are day numbers relative to 2021-01-01 (= 0); rendering is done by
 // vFmtDay with an explicit layout so that no time.Time arithmetic enters the
 // oracle.
+
+// vZeroDay: 0001/01/01, the first day the calendar has, which is also the zero value of the program's time type
+var vZeroDay = vDaysFromCivil(1, 1, 1)
 
 var vDaysInMonth = [12]int{31, 28, 31, 30, 31, 30, 31, 31, 30, 31, 30, 31}
 
@@ -905,6 +921,23 @@ func vGenLog(t *rapid.T, o vLogOpts, label string) (vDoc, []int) {
 				num = vGenNumDecimal(t, label+".q")
 			}
 			lines = append(lines, vLine{Kind: vkEntry, Name: nm, Num: num, L: vGenEntryLayout(t, o.Layout, label+".el")})
+			// one entry in 12 is followed by its exact cancellation, and then often by a third mention of the food
+			if rapid.IntRange(0, 11).Draw(t, label+".cancel") == 0 {
+				neg := "-" + num
+				if strings.HasPrefix(num, "-") {
+					neg = num[1:]
+				} else if strings.HasPrefix(num, "+") {
+					neg = "-" + num[1:]
+				}
+				lines = append(lines, vLine{Kind: vkEntry, Name: nm, Num: neg, L: vGenEntryLayout(t, o.Layout, label+".el")})
+				if rapid.Bool().Draw(t, label+".third") {
+					third := "1"
+					if !o.Exact {
+						third = vGenNumDecimal(t, label+".q3")
+					}
+					lines = append(lines, vLine{Kind: vkEntry, Name: nm, Num: third, L: vGenEntryLayout(t, o.Layout, label+".el")})
+				}
+			}
 		}
 		recs[i] = vRec{Head: vFmtDay(days[i], o.DateLayout), HL: vGenHeadLayout(t, o.Layout, label+".hl"), Lines: lines}
 	}
